@@ -67,6 +67,12 @@ M = [
     ('C18', 'fingerprint-from-secret-length', 'pgpy/packet/packets.py', "        plen = self.keymaterial.publen()\n", "        plen = len(self.keymaterial)\n"),
     ('C18', 'keyid-first-16', 'pgpy/types.py', "        return self[-16:]", "        return self[:16]"),
     ('C18', 'timestamp-via-mktime', 'pgpy/packet/packets.py', "        fp.update(self.int_to_bytes(calendar.timegm(self.created.utctimetuple()), 4))", "        fp.update(self.int_to_bytes(int(__import__('time').mktime(self.created.utctimetuple())) & 0xFFFFFFFF, 4))"),
+    ('C19', 'alias-layer-arithmetic-back', 'pgpy/pgp.py', "            free = [m for m in self._aliases if alias not in m]\n            if not free:\n                self._aliases.appendleft({})\n                free = [self._aliases[0]]\n\n            free[0][alias] = pkid", "            adepth = len(self._aliases) - len([None for m in self._aliases if alias in m]) - 1\n            if adepth == -1:\n                self._aliases.appendleft({})\n                adepth = 0\n\n            self._aliases[adepth][alias] = pkid"),
+    ('C19', 'unload-forgets-subkeys', 'pgpy/pgp.py', "            if key.is_primary:\n                [ self.unload(sk) for sk in key.subkeys.values() ]", "            pass"),
+    ('C19', 'contains-without-space-stripping', 'pgpy/pgp.py', "            return alias in aliases or alias.replace(' ', '') in aliases", "            return alias in aliases"),
+    ('C19', 'get-key-without-space-stripping', 'pgpy/pgp.py', "            if alias.replace(' ', '') in m:\n                return self._keys[m[alias.replace(' ', '')]]", "            pass"),
+    ('C19', 'EQUIVALENT-unload-skips-resort', 'pgpy/pgp.py', "                if a in self:\n                    self._sort_alias(a)", "                pass"),
+    ('C19', 'fingerprints-ignores-subkeys', 'pgpy/pgp.py', "        return {pk.fingerprint for pk in self._keys.values()\n                if pk.is_primary in", "        return {pk.fingerprint for pk in self._keys.values() if pk.is_primary\n                if pk.is_primary in"),
 ]
 
 
